@@ -77,10 +77,18 @@ def gen(prop, stream, tier, avoid):
             kind = rng.weighted([("curve", 4), ("surface", 4), ("volume", 1.5)])
         spec = shapes.gen_shape(rng, kind=kind, max_size=6 if kind == "curve" else 5, max_degree=3,
                                 dim=3 if (pooled or kind != "curve") else None)
+        if objs and rng.chance(0.2):
+            # a sibling of an earlier object: same kind, degrees, sizes and knot vectors (other control points); the caller
+            # builds both from the SAME knot vector lists, as users do for patches of one model
+            j = rng.randrange(len(objs))
+            src = objs[j]
+            spec = shapes.gen_shape(rng, kind=src["kind"], dim=src["dim"], degrees=list(src["degrees"]), sizes=list(src["sizes"]))
+            spec["knots"] = [list(kv) for kv in src["knots"]]
+            spec["share_kv_with"] = j if "share_kv_with" not in src else src["share_kv_with"]
         objs.append(spec)
     surf_idx = [i for i, s in enumerate(objs) if s["kind"] == "surface"]
     nops = kn.pick([3, 4, 5, 6, 8, 10, 14] + ([20, 28] if tier == "thorough" else []))
-    W = {"eval": 3, "eval_list": 1.5, "sample": 2, "delta": 1, "deriv": 3, "insert": 1.5, "remove": 0.8, "refine": 0.6,
+    W = {"eval": 3, "eval_list": 1.5, "sample": 2, "delta": 1, "deriv": 3, "insert": 1.5, "remove": 0.8, "refine": 0.6, "remove_orig": 0.6,
          "split": 1, "decompose": 0.6, "tangent": 1, "normal": 0.8, "tessellate": 1.2, "voxelize": 1.2 if pooled else 0.3,
          "length": 0.5, "hodograph": 0.7, "find_ctrlpts": 0.7,
          "cadd": 2.5 if pooled and surf_idx else 0, "ctess": 3 if pooled and surf_idx else 0,
@@ -122,6 +130,9 @@ def gen(prop, stream, tier, avoid):
             op.update(obj=o2, dir=d2, t=t2, num=1)
         elif k == "refine":
             op["dir"] = rng.randrange(3)
+        elif k == "remove_orig":
+            op["dir"] = rng.randrange(3)
+            op["which"] = rng.randrange(6)
         elif k == "split":
             op["dir"] = rng.randrange(2)
             op["t"] = rng.randint(1, 31) / 32.0
@@ -151,6 +162,19 @@ def gen(prop, stream, tier, avoid):
             motif.append({"op": "edit_handle", "obj": b, "vec": [1.0, -0.5, 0.25]})
         motif += [{"op": "ctess", "obj": a, "delta": motif[1]["delta"], "force": False, "n": motif[1]["n"]}, {"op": "cread", "obj": a}]
         ops = [o for o in ops if o["op"] != "cadd"]
+        at = kn.randint(0, len(ops))
+        ops = ops[:at] + motif + ops[at:]
+    sibs = [(i, sp["share_kv_with"]) for i, sp in enumerate(objs) if "share_kv_with" in sp]
+    if sibs and kn.chance(0.6):
+        # motif: two objects built from the same knot vector lists; one of them loses a knot, the other one is queried afterwards
+        b, a = kn.pick(sibs)
+        if kn.chance(0.5):
+            a, b = b, a
+        d_ = kn.randrange(3)
+        motif = [{"op": "remove_orig", "obj": a, "dir": d_, "which": kn.randrange(6)},
+                 {"op": "eval", "obj": b, "t": [kn.randint(0, 32) / 32.0 for _ in range(3)]},
+                 {"op": "eval", "obj": b, "t": [1.0, 1.0, 1.0]},
+                 {"op": "sample", "obj": b, "n": kn.randint(3, 6)}]
         at = kn.randint(0, len(ops))
         ops = ops[:at] + motif + ops[at:]
     # ---- configuration vectors
@@ -249,7 +273,7 @@ def _norm01(kv):
     return [(k - lo) / (hi - lo) for k in kv]
 
 
-def _build(spec, cfg):
+def _build(spec, cfg, shared=None, idx=None):
     g = shapes.G
     kwargs = {}
     if cfg["span"] == "binsearch":
@@ -261,7 +285,20 @@ def _build(spec, cfg):
     else:
         knots = spec["knots"]
     obj = shapes.new_object(spec["kind"], spec["rational"], **kwargs)
+    if shared is not None:
+        src = spec.get("share_kv_with")
+        if src is not None and src in shared:
+            knots = shared[src]            # the very same list objects
+        else:
+            knots = [list(kv) for kv in knots]
+            shared[idx] = knots
+        shapes.define_shared(obj, spec["degrees"], spec["sizes"], shapes.spec_ctrlptsw(spec), knots)
+        return _finish_build(obj, spec, cfg, g)
     shapes.define(obj, spec["degrees"], spec["sizes"], shapes.spec_ctrlptsw(spec), knots)
+    return _finish_build(obj, spec, cfg, g)
+
+
+def _finish_build(obj, spec, cfg, g):
     if cfg["evaluator"] == "alt" and not spec["rational"] and spec["kind"] in ("curve", "surface"):
         cls = g.evaluators.CurveEvaluator2 if spec["kind"] == "curve" else g.evaluators.SurfaceEvaluator2
         fs = g.helpers.find_span_binsearch if cfg["span"] == "binsearch" else g.helpers.find_span_linear
@@ -292,8 +329,9 @@ def execute_workload(script, cfg):
         simpool.install()
     simpool.configure(h64(script.get("seed", 0), script.get("run", 0), "pool", cfg["sched"]), cfg["chunk"], cfg["faults"], None)
     objs = []
-    for spec in script["objects"]:
-        o = _build(spec, cfg)
+    shared = {}
+    for oi, spec in enumerate(script["objects"]):
+        o = _build(spec, cfg, shared, oi)
         nd = shapes.DIRS[spec["kind"]]
         o.sample_size = 4
         objs.append(o)
@@ -369,6 +407,22 @@ def execute_workload(script, cfg):
                 nums = [0] * nd
                 params[d], nums[d] = u, num
                 (g.operations.insert_knot if k == "insert" else g.operations.remove_knot)(obj, params, nums)
+                val = _defn_obs(obj, aL)
+            elif k == "remove_orig":
+                # removal of a knot that is simply there (whether or not it is removable without changing the shape): the outcome is a
+                # deterministic function of the definition, hence must not depend on the configuration either
+                d = op["dir"] % nd
+                dfn = shapes.definition(obj)
+                kv, p_ = dfn["knots"][d], dfn["degrees"][d]
+                interior = sorted(set(kv[p_ + 1:len(kv) - p_ - 1]))
+                if not interior or dfn["sizes"][d] - 1 < p_ + 1:
+                    out.append(["skip"])
+                    continue
+                u = interior[op["which"] % len(interior)]
+                params = [None] * nd
+                nums = [0] * nd
+                params[d], nums[d] = u, 1
+                g.operations.remove_knot(obj, params, nums)
                 val = _defn_obs(obj, aL)
             elif k == "refine":
                 dens = [0] * nd
